@@ -12,7 +12,9 @@
 // See the License for the specific language governing permissions and
 // limitations under the License.
 
-use percent_encoding::{percent_decode_str, utf8_percent_encode, AsciiSet, NON_ALPHANUMERIC};
+use percent_encoding::{
+    percent_decode_str, utf8_percent_encode, AsciiSet, CONTROLS, NON_ALPHANUMERIC,
+};
 use std::collections::{HashMap, HashSet};
 use std::error::Error;
 use std::fmt::{Display, Formatter, Write};
@@ -316,7 +318,10 @@ impl RoutePattern {
                     }
                 }
             } else {
-                route.push_str(segment_str);
+                // Literal segments may contain characters that cannot occur in a URI (anything
+                // outside ASCII); existing escapes are left as they are.
+                let encoded = utf8_percent_encode(segment_str, CONTROLS);
+                write!(&mut route, "{}", encoded).expect("Formatting should not fail.");
             }
         }
         if let Some(missing) = missing {
